@@ -7,8 +7,8 @@ replay = base.s_replay
 
 
 def run(tier):
-    jobs = [chrun.SJob("vlib.sh.c04", "c04", base.parts(20), 400 if tier == "quick" else 1200,
-                       what="global_getclosurevars + _rewrite_captured_vars + _resolve_called_lambdas + check_ast on 20 lambda shapes (free name in a closure cell / module "
+    jobs = [chrun.SJob("vlib.sh.c04", "c04", base.parts(24), 400 if tier == "quick" else 1200,
+                       what="global_getclosurevars + _rewrite_captured_vars + _resolve_called_lambdas + check_ast on 24 lambda shapes (free name in a closure cell / module "
                             "global / nested class attribute / module attribute; the same name shadowed by the lambda's own parameter, a nested lambda's parameter, a called "
                             "lambda's parameter, a comprehension target, at nesting depth 0-2, used before / inside / after the shadowing scope; keyword arguments, default "
                             "values, uncaptured names); the closure is a real one obtained by calling a compiled factory with the symbolic value; symbolic: the captured "
@@ -19,7 +19,91 @@ def run(tier):
                        explanation="bounded symbolic execution (CrossHair/z3) of the capture rewriting on real closures with symbolic cell / global / class-attribute contents",
                        functions=["func_adl.util_ast.global_getclosurevars", "_rewrite_captured_vars (visit_Name, visit_Attribute, visit_Lambda, comprehension scopes, visit_Call, is_arg)",
                                   "_resolve_called_lambdas", "check_ast"],
-                       bounds={"shapes": 20, "history_length": 1, "str_len": 3, "int": "unbounded"},
+                       bounds={"shapes": 24, "history_length": 1, "str_len": 3, "int": "unbounded"},
                        extra_assumptions=["source recovery (C03) is skipped: the lambda's AST is handed to the rewriter directly; the end-to-end path through ObjectStream.Select with "
                                           "real lambdas and captured constants is exercised by C01's generated modules"])
+    try:
+        history_side_check(r)
+    except Exception as e:  # noqa
+        r.harness_error("history side check crashed: %r" % (e,))
     return r.finish()
+
+
+def history_side_check(r):
+    """Through the whole acquisition path (real lambdas in a real file, parse_as_ast / ObjectStream.Select): the same lambda code is used
+    repeatedly while the captured names are rebound - every query must carry the value at the moment of ITS call.  Concrete (needs
+    source files); complements the symbolic part, which hands the lambda's AST to the rewriter directly."""
+    import ast
+    from vlib import srcgen
+    text = '''
+from func_adl import EventDataset
+
+
+class DS(EventDataset):
+    async def execute_result_async(self, a, title=None):
+        return a
+
+
+G = 1
+
+
+class K:
+    C = 1
+
+
+def by_closure(ds, cut):
+    return ds.Where(
+        lambda e: e.pt > cut
+    )
+
+
+def by_global(ds):
+    return ds.Select(
+        lambda e: e.pt + G
+    )
+
+
+def by_class(ds):
+    return ds.SelectMany(
+        lambda e: e.jets.Where(lambda j: j.pt > K.C)
+    )
+
+
+def loop(ds, values):
+    out = []
+    for v in values:
+        out.append(ds.Select(
+            lambda e: e.x * v
+        ))
+    return out
+'''
+    n = 0
+    with srcgen.Scratch() as sc:
+        mod = sc.load(text, "c04hist")
+
+        def consts(st):
+            return [c.value for c in ast.walk(st.query_ast.args[1]) if isinstance(c, ast.Constant)]
+        seen = []
+        for cut in (30.0, 50.0, 30.0, 7):
+            st = mod.by_closure(mod.DS(), cut)
+            seen.append((st, cut))
+            n += 1
+        for st, cut in seen:
+            if consts(st) != [cut]:
+                r.violation("closure variable: query built with cut=%r carries %r" % (cut, consts(st)), {"engine": "concrete", "program": "by_closure", "expected": cut, "got": consts(st)})
+        built = []
+        for g in (1, 1000, -5):
+            mod.G = g
+            mod.K.C = g + 1
+            built.append((mod.by_global(mod.DS()), [g], mod.by_class(mod.DS()), [g + 1]))
+            n += 2
+        del mod.G
+        for a, ea, b, eb in built:
+            if consts(a) != ea or consts(b) != eb:
+                r.violation("global / class constant: query carries %r / %r, expected %r / %r" % (consts(a), consts(b), ea, eb),
+                            {"engine": "concrete", "program": "by_global/by_class"})
+        sts = mod.loop(mod.DS(), [2, 3, 5])
+        n += 3
+        if [consts(s) for s in sts] != [[2], [3], [5]]:
+            r.violation("loop variable: queries carry %r, expected [[2], [3], [5]]" % [consts(s) for s in sts], {"engine": "concrete", "program": "loop"})
+    r.coverage["concrete_history_queries"] = n
